@@ -20,6 +20,7 @@ def validate(path):
     fmd = ThriftObject("FileMetaData", cencoding.read_thrift(fio))
     if fio.tell() != flen:
         problems.append("footer length field %d but footer occupies %d bytes" % (flen, fio.tell()))
+    problems += idl_conformance("FileMetaData", bytes(foot))
     total_rows = 0
     for ri, rg in enumerate(fmd.row_groups):
         total_rows += rg.num_rows
@@ -40,6 +41,8 @@ def validate(path):
                 pio = cencoding.NumpyIO(buf)
                 ph = ThriftObject("PageHeader", cencoding.read_thrift(pio))
                 hl = pio.tell()
+                problems += ["rg%d col%d page at %d: %s" % (ri, ci, pos, p) for p in
+                             idl_conformance("PageHeader", raw[pos:pos + hl])]
                 body = raw[pos + hl:pos + hl + ph.compressed_page_size]
                 if len(body) != ph.compressed_page_size:
                     problems.append("rg%d col%d: page at %d runs past the end of the file" % (ri, ci, pos))
@@ -102,3 +105,21 @@ def validate(path):
     if fmd.num_rows != total_rows:
         problems.append("file num_rows %d != sum of row groups %d" % (fmd.num_rows, total_rows))
     return problems
+
+
+_IDL = [None]
+
+
+def idl_conformance(sname, data):
+    """the bytes of one serialised structure against parquet.thrift: field ids, wire types, nothing left over"""
+    from vf.pyxlift import idl as IDLM, idl_bytes
+    if _IDL[0] is None:
+        _IDL[0] = IDLM.parse()
+    try:
+        toks, end = idl_bytes.to_tokens(_IDL[0], sname, data)
+        ref, seen, pos = IDLM.decode(_IDL[0], sname, toks, 0)
+    except (IDLM.Malformed, ValueError, IndexError) as ex:
+        return ["%s does not follow parquet.thrift: %s" % (sname, ex)]
+    if end != len(data):
+        return ["%s occupies %d of its %d bytes" % (sname, end, len(data))]
+    return []
